@@ -250,6 +250,33 @@ def run_property(pid, tier, seed, replay=None):
                 proof["ok"] = False
                 proof["broken"].append({"kind": "correspondence-run", "theorem": f"correspondence:{fam.NAME}", "error": str(e)[-1500:]})
 
+    if not model_ok:
+        # the run model does not build (the tie broke): families that state the whole property on traces can still look
+        # for a concrete failing input on the implementation's own observations
+        for fam in fams:
+            if not getattr(fam, "PREDICATE_COMPLETE", False) or not hasattr(fam, "impl_only_check"):
+                continue
+            try:
+                cases = load_corpus(fam.NAME, pid) + fam.generate(rng, P["n"][tier].get(fam.NAME, 1000), tier, pid)
+                os.makedirs(workdir, exist_ok=True)
+                casefile = os.path.join(workdir, f"{fam.NAME}.implonly.cases")
+                with open(casefile, "w") as f:
+                    f.write("\n".join(cases) + "\n")
+                for prof in ("debug", "release"):
+                    obs = harness_run(prof, fam.NAME, casefile, os.path.join(workdir, f"{fam.NAME}.implonly.{prof}.out"))
+                    n_eval += len(cases)
+                    for c, o in zip(cases, obs):
+                        why = fam.impl_only_check(pid, c, o)
+                        if why:
+                            violations.append((fam, {"index": 0, "case": c, "profile": prof, "impl": o, "model": [],
+                                                     "binding_fields": None, "predicate_failed": why}))
+                    if violations:
+                        break
+                notes.append(f"run model did not build: {fam.NAME} predicate evaluated on the implementation's traces only")
+            except Exception as e:
+                traceback.print_exc()
+                notes.append("implementation-only search failed: " + str(e)[-300:])
+
     # 6. verdict
     known, _fixed = load_known()
     rc = 0
@@ -272,7 +299,7 @@ def run_property(pid, tier, seed, replay=None):
             if not unknown:
                 continue
             unknown.sort(key=lambda v: (0 if v.get("predicate_failed") else 1, len(v["case"])))
-            best = shrink(pid, fam, unknown[0], workdir)
+            best = shrink(pid, fam, unknown[0], workdir) if model_ok else unknown[0]
             # a family whose cross_checks state the whole property on traces: a bare model/implementation
             # difference shows the tie is broken, not that the property fails on this input
             suffix = " no-failing-input-found" if getattr(fam, "PREDICATE_COMPLETE", False) and not best.get("predicate_failed") else ""
